@@ -149,6 +149,81 @@ theorem passTokenOn_eq (c : Ctx) (now : Int) (att : Attempt) (g : Bool) (a0 : At
     simp only [tr, toCheckTokenPass, hst, tokenBytes, sendToken]
     simp [h]
 
+/-! ## The GAP state over successive token visits -/
+
+/-- The GAP state after `k` further token visits, each of which ends with one `gapAdvance` step in
+`do_pass_token` (`do_gap = Yes`), while the parameters and the ring view stay as they are.
+`none` = the `next_gap_poll` arithmetic overflowed (excluded under the station invariant). -/
+def gapAfter (s : Station) : Nat → Option GapState
+  | 0 => some s.gap
+  | k + 1 =>
+    match gapAdvance s with
+    | some g => gapAfter { s with gap := g } k
+    | none => none
+
+theorem gapAfter_add (k j : Nat) : ∀ s : Station,
+    gapAfter s (k + j) = match gapAfter s k with
+      | some g => gapAfter { s with gap := g } j
+      | none => none := by
+  induction k with
+  | zero => intro s; simp [gapAfter]
+  | succ k ih =>
+    intro s
+    rw [show k + 1 + j = (k + j) + 1 by omega]
+    simp only [gapAfter]
+    cases gapAdvance s with
+    | none => rfl
+    | some g => exact ih _
+
+/-- While waiting, every visit counts one rotation. -/
+theorem gapAfter_waiting (k : Nat) : ∀ (s : Station) (r : Nat), s.gap = .waiting r → r + k ≤ s.p.gapWait + 1 →
+    gapAfter s k = some (.waiting (r + k)) := by
+  induction k with
+  | zero => intro s r hg _; simp [gapAfter, hg]
+  | succ k ih =>
+    intro s r hg hle
+    have hga : gapAdvance s = some (.waiting (r + 1)) := by
+      unfold gapAdvance
+      rw [hg]
+      simp only
+      rw [if_neg (by omega)]
+    simp only [gapAfter, hga]
+    rw [ih { s with gap := .waiting (r + 1) } (r + 1) rfl (by show r + 1 + k ≤ s.p.gapWait + 1; omega)]
+    congr 2
+    omega
+
+/-- During a sweep the visits poll the addresses of `sweepFrom`, one per visit. -/
+theorem gapAfter_sweep (fuel : Nat) : ∀ (s : Station) (cur : Nat), s.gap = .doPoll cur →
+    ∀ j a, (sweepFrom s.p.address s.ring.ns s.p.hsa fuel cur)[j]? = some a →
+      gapAfter s (j + 1) = some (.doPoll a) := by
+  induction fuel with
+  | zero => intro s cur _ j a hj; simp [sweepFrom] at hj
+  | succ f ih =>
+    intro s cur hg j a hj
+    unfold sweepFrom at hj
+    cases hn : nextGapPoll s.p.address s.ring.ns s.p.hsa cur with
+    | poll x =>
+      simp only [hn] at hj
+      have hga : gapAdvance s = some (.doPoll x) := by
+        unfold gapAdvance nextGap
+        rw [hg]
+        simp only [hn]
+      simp only [gapAfter, hga]
+      cases j with
+      | zero =>
+        simp at hj
+        simp [gapAfter, hj]
+      | succ j =>
+        exact ih { s with gap := .doPoll x } x rfl j a (by simpa using hj)
+    | waiting => simp [hn] at hj
+    | panic => simp [hn] at hj
+
+/-- `next_gap_poll` ends a sweep with the rotation counter at 0. -/
+theorem nextGap_waiting_zero (s : Station) (cur r : Nat) (h : nextGap s cur = some (.waiting r)) : r = 0 := by
+  unfold nextGap at h
+  split at h <;> simp at h
+  exact h.symm
+
 /-! ## Evaluating the answer to a GAP poll (`await_gap_poll_response`) -/
 
 /-- What the first pending telegram means to a station `ts` that awaits the status reply of `addr`:
